@@ -52,9 +52,9 @@ type pcLine struct {
 }
 
 var (
-	pcRead   = common.HexToAddress("0x64")
-	pcSender = common.HexToAddress("0x65")
-	pcWrite  = common.HexToAddress("0x66")
+	pcRead    = common.HexToAddress("0x64")
+	pcSender  = common.HexToAddress("0x65")
+	pcWrite   = common.HexToAddress("0x66")
 	pcBig1008 = new(big.Int).Sub(new(big.Int).Lsh(big.NewInt(1), 64), big.NewInt(32))
 )
 
